@@ -101,6 +101,27 @@ fn input_ascii_xstr(v: &Value) -> bool {
 }
 
 /// fixed shapes the property's quantifier text names explicitly
+/// texts far longer than any buffer a scanner might use (4 KiB, 8 KiB, 64 KiB), made of tokens that need look-ahead
+/// (numbers of several digits, dates, timestamps with `Z`, refs with display names), at every alignment
+pub fn long_values() -> Vec<Value> {
+    use chrono::TimeZone;
+    let mut v = Vec::new();
+    for pad in 0..6usize {
+        let mut items: Vec<Value> = vec![Value::make_str(&"a".repeat(4080 + pad))];
+        for i in 0..1400i64 {
+            items.push(match i % 5 {
+                0 => Value::make_number(123456.0 + i as f64),
+                1 => Value::Date(Date::from(chrono::NaiveDate::from_ymd_opt(2021, 1 + (i % 12) as u32, 1 + (i % 28) as u32).unwrap())),
+                2 => Value::DateTime(DateTime::from(chrono_tz::UTC.timestamp_opt(1_600_000_000 + i, 0).single().unwrap())),
+                3 => Value::Ref(Ref { value: format!("p:{i}"), dis: Some(format!("Site {i}")) }),
+                _ => Value::make_number(-0.5 - i as f64),
+            });
+        }
+        v.push(Value::List(items));
+    }
+    v
+}
+
 pub fn named_cases() -> Vec<Value> {
     let mut v: Vec<Value> = Vec::new();
     let d = |kvs: &[(&str, Value)]| -> Dict {
@@ -167,6 +188,9 @@ pub fn generate(ctx: &mut Ctx) {
     }
     for v in named_cases() {
         ctx.case("wf:named", &vx::show(&v));
+    }
+    for v in long_values() {
+        ctx.case("wf:long", &vx::show(&v));
     }
     // every unit once (finite magnitude)
     for (i, u) in gen::all_units_cached().iter().enumerate() {
